@@ -90,6 +90,11 @@ def _case(draw, tier, targets):
     # slot 0 and 1 are favoured so that two iterators are usually live together
     acts = draw(st.lists(st.tuples(st.sampled_from(["adv"] * 14 + ["new", "new", "drop", "drop", "drain"]),
                                    st.sampled_from([0, 1, 0, 1, 2])), min_size=n, max_size=n))
+    # the process-wide defaults (petl.config.failonerror / sort_buffersize) change while iterators are live: a view was
+    # configured when it was built
+    if draw(st.integers(0, 3)) == 0:
+        for _ in range(draw(st.integers(1, 2))):
+            acts.insert(draw(st.integers(0, len(acts))), ("config", draw(st.integers(0, 2))))
     # structured openings: a completed pass (optionally with another iterator already live) before the interleaving starts
     opening = draw(st.sampled_from(["none", "none", "none", "pass-first", "pass-beside-live"]))
     if opening == "pass-first":
@@ -156,11 +161,28 @@ def run_schedule(case, ctx):
             return Fail("%s/%s/diamond-differs" % (e.name, variant), "with one object (upstream %s) as every input the pass gave %r, with "
                         "equal separate inputs %r" % (up, dsolo, solo))
     view = _build(e, shaped(), variant, tmp, res, up, diamond=diamond)
+    import petl.config as _cfg
+    _old = (_cfg.failonerror, _cfg.sort_buffersize)
+    try:
+        return _run(case, ctx, e, variant, norm, solo, view)
+    finally:
+        _cfg.failonerror, _cfg.sort_buffersize = _old
+
+
+def _run(case, ctx, e, variant, norm, solo, view):
+    import petl.config as _cfg
     its = {}
     live_max = 0
     last = None
     switched_after_data = False
     for kind, s in case["schedule"]:
+        if kind == "config":
+            if s == 2:
+                _cfg.sort_buffersize = 1
+            else:
+                _cfg.failonerror = ("inline", True)[s]
+            ctx.label("config-changed-mid-schedule")
+            continue
         if kind in ("adv", "drain") and s not in its:
             kind = "new"
         if kind == "new":
